@@ -739,7 +739,13 @@ pub mod fs {
 /// (`use verif_rt::shim as std;`): everything is std's except `fs`.
 pub mod shim {
     pub use super::fs;
+    pub use super::thread;
     pub use std::*;
+    /// `std::sync` with the blocking primitives and atomics replaced by the scheduler-owned ones
+    pub mod sync {
+        pub use shuttle::sync::{atomic, mpsc, Barrier, BarrierWaitResult, Condvar, Mutex, MutexGuard, Once, RwLock, RwLockReadGuard, RwLockWriteGuard};
+        pub use std::sync::*;
+    }
 }
 
 // ------------------------------------------------------------------------------------------------
